@@ -169,3 +169,82 @@ func c16CallMerges(c *mc.Ctx) {
 		}
 	}
 }
+
+// c16CallerPayload: the caller's payload bytes are never modified - not after a call, not after a call that
+// failed because the writer failed, and not while the Muxer is inside a call (the writer, or another goroutine
+// reading the same buffer, would see it). Payload sizes from one to many packets, windows into a larger caller
+// buffer, every Write call index as the failing one (once / permanently / accepting half), and no failure.
+func c16CallerPayload(c *mc.Ctx) {
+	var n int64
+	sizes := []int{10, 169, 170, 400, 1000}
+	if c.Thorough() {
+		sizes = append(sizes, 3000, 9000)
+	}
+	for _, l := range sizes {
+		for _, withAF := range []bool{false, true} {
+			// number of Write calls of a fault-free run
+			total := 0
+			for fail := -1; fail < total || fail == -1; fail++ {
+				for mode := 0; mode < 3; mode++ {
+					if fail == -1 && mode > 0 {
+						continue
+					}
+					backing := make([]byte, l+64)
+					for j := range backing {
+						backing[j] = byte(0x10 + (j*7+l)%0xd0)
+					}
+					orig := append([]byte{}, backing...)
+					payload := backing[16 : 16+l]
+					w := NewRecWriter()
+					w.FailAt, w.Perm, w.Partial = fail, mode == 1, mode == 2
+					during := -1
+					w.OnWrite = func(i int) {
+						if during < 0 && !bytes.Equal(backing, orig) {
+							during = i
+						}
+					}
+					m := astits.NewMuxer(context.Background(), w, astits.MuxerOptTablesRetransmitPeriod(2))
+					m.AddElementaryStream(astits.PMTElementaryStream{ElementaryPID: 0x100, StreamType: astits.StreamTypeH264Video})
+					m.SetPCRPID(0x100)
+					var af *astits.PacketAdaptationField
+					if withAF {
+						af = &astits.PacketAdaptationField{RandomAccessIndicator: true, HasPCR: true, PCR: &astits.ClockReference{Base: 300, Extension: 11}}
+					}
+					var errs []error
+					for k := 0; k < 2; k++ { // the second call runs after a possible failure of the first
+						_, err := m.WriteData(&astits.MuxerData{PID: 0x100, AdaptationField: af, PES: &astits.PESData{Data: payload, Header: &astits.PESHeader{OptionalHeader: &astits.PESOptionalHeader{MarkerBits: 2, PTSDTSIndicator: astits.PTSDTSIndicatorOnlyPTS, PTS: &astits.ClockReference{Base: 3600}}}}})
+						errs = append(errs, err)
+					}
+					if fail == -1 {
+						total = w.Writes
+					}
+					n++
+					det := map[string]any{"kind": "c16-payload", "payload_len": l, "with_af": withAF, "fail_at": fail, "mode": mode}
+					if during >= 0 {
+						det["message"] = fmt.Sprintf("the caller's buffer differs from what was handed over while the Muxer is inside WriteData (seen by the writer at Write call %d)", during)
+						c.Rep.Report("caller-payload-modified-during-call", det)
+					} else if !bytes.Equal(backing, orig) {
+						det["message"] = fmt.Sprintf("the caller's buffer was modified (call results: %v)", errs)
+						sig := "caller-payload-modified"
+						if fail >= 0 {
+							sig = "caller-payload-modified-by-failed-call"
+						}
+						c.Rep.Report(sig, det)
+					}
+					if fail >= 0 {
+						c.Ev.Class("payload-checked-around-failing-write", 1)
+					}
+				}
+			}
+		}
+	}
+	c.Ev.DistinctAdd(n)
+	c.Ev.AddScenario(mc.Scenario{Name: "caller-payload-integrity", SpaceSize: n, Executed: n, Exhaustive: true,
+		Bound: "payload sizes {10,169,170,400,1000(,3000,9000)} x with/without adaptation field x failing Write index (none, every index; once / permanent / half accepted) x 2 calls: caller buffer compared at every Write call and after the calls"})
+}
+
+func init() {
+	Replayers["c16-payload"] = func(d map[string]any) error {
+		return fmt.Errorf("%v (re-run the check: the case is fully described by payload_len=%v with_af=%v fail_at=%v mode=%v)", d["message"], d["payload_len"], d["with_af"], d["fail_at"], d["mode"])
+	}
+}
